@@ -161,7 +161,7 @@ func BestOfTries(next func() uint64, weights []uint64, cnt, tries int) ([]int, e
 // best of tries weighted samples of size ask over the eligible validators (given in staking power
 // order, weight = bonded tokens). Returns positions into weights, in draw order.
 func OracleCommittee(seed []byte, id uint64, chainID string, weights []uint64, ask, tries int) ([]int, error) {
-	d, err := NewHmacDrbg(seed, be64(id), []byte(chainID))
+	d, err := NewHmacDrbg(seed, drbgBE64(id), []byte(chainID))
 	if err != nil {
 		return nil, err
 	}
@@ -206,7 +206,7 @@ func SignerCommittee(seed, nonce []byte, chainID string, memberIDs []uint64, thr
 
 // SigningNonce is the DRBG nonce of signing attempt (signingID, attempt): BE64(id) || BE64(attempt).
 func SigningNonce(signingID, attempt uint64) []byte {
-	return append(be64(signingID), be64(attempt)...)
+	return append(drbgBE64(signingID), drbgBE64(attempt)...)
 }
 
 // ShiftSeed is the rolling seed update: drop the oldest byte, append byte 0 of the block hash.
@@ -216,7 +216,7 @@ func ShiftSeed(seed, blockHash []byte) []byte {
 	return append(out, blockHash[0])
 }
 
-func be64(x uint64) []byte {
+func drbgBE64(x uint64) []byte {
 	b := make([]byte, 8)
 	for i := 7; i >= 0; i-- {
 		b[i] = byte(x)
